@@ -806,3 +806,186 @@ Proof.
     rewrite G3, HR. lia.
 Qed.
 
+Lemma compromise_first ideal remote : calc_compromise_fee ideal 0 remote = ideal.
+Proof. unfold calc_compromise_fee. cbn. rewrite orb_true_r. reflexivity. Qed.
+
+Lemma start_state a cap_o aff_o b cap_r aff_r :
+  a <= aff_o ->
+  sys_start false a cap_o aff_o b cap_r aff_r =
+  mkSys (mkCloser NFeeNegotiation true false a cap_o a [a] aff_o None)
+        (mkCloser NFeeNegotiation false false b cap_r 0 [] aff_r None)
+        (Some (false, a)) None 0 [].
+Proof.
+  intros H. unfold sys_start, new_closer, begin_negotiation, set_state, propose. cbn.
+  assert (E : (a <=? aff_o) = true) by lia. rewrite E. reflexivity.
+Qed.
+
+Lemma start_step a cap_o aff_o b cap_r aff_r :
+  a <= aff_o -> b <= aff_r ->
+  sys_step (sys_start false a cap_o aff_o b cap_r aff_r) =
+  if b =? a then
+    mkSys (mkCloser NFeeNegotiation true false a cap_o a [a] aff_o None)
+          (mkCloser NFinished false false b cap_r b [b] aff_r (Some a))
+          (Some (true, a)) None 1 [a]
+  else
+    mkSys (mkCloser NFeeNegotiation true false a cap_o a [a] aff_o None)
+          (mkCloser NFeeNegotiation false false b cap_r b [b] aff_r None)
+          (Some (true, b)) None 1 [a].
+Proof.
+  intros Ha Hb. rewrite start_state by auto.
+  unfold sys_step. cbn [sys_err sys_msg sys_open sys_resp sys_rounds sys_trace].
+  unfold receive_closing_signed. cbn [n_state n_taproot n_initiator n_prior n_last n_ideal
+                                        n_max_fee andb negb mem_fee existsb].
+  rewrite compromise_first. unfold propose. cbn [n_afford n_prior mem_fee existsb].
+  assert (E : (b <=? aff_r) = true) by lia. rewrite E.
+  destruct (b =? a); reflexivity.
+Qed.
+
+Lemma negotiation_terminates a b cap_o cap_r aff_o aff_r n :
+  100 <= a -> 100 <= b ->
+  Z.max a b <= cap_o -> Z.max a b <= aff_o -> Z.max a b <= aff_r ->
+  Z.max a b < 2 ^ 60 ->
+  close_enough n (Z.min a b) (Z.max a b) ->
+  exists f rounds,
+    (rounds <= n + 4)%nat /\ Z.min a b <= f <= Z.max a b /\
+    forall fuel, (n + 4 <= fuel)%nat ->
+      let s := sys_run fuel (sys_start false a cap_o aff_o b cap_r aff_r) in
+      agreed_on s f /\ sys_msg s = None /\ sys_rounds s = rounds.
+Proof.
+  intros Ha Hb Hcap Hao Har Hbig HC.
+  set (s0 := sys_start false a cap_o aff_o b cap_r aff_r).
+  assert (HS : sys_step s0 = _) by (apply start_step; lia).
+  destruct (b =? a) eqn:E.
+  - (* equal ideal fees: accepted at once *)
+    assert (b = a) by lia. subst b.
+    assert (A : accepted (sys_step s0) true a).
+    { rewrite HS. constructor; cbn; auto. }
+    destruct (accepted_finish _ _ _ A) as (G1 & G2 & G3). cbv zeta in *.
+    exists a, 3%nat. split; [lia|]. split; [lia|].
+    intros fuel Hf. cbv zeta.
+    replace fuel with (3 + (fuel - 3))%nat by lia. rewrite run_add.
+    cbn [sys_run]. rewrite run_stable by exact G2.
+    split; [exact G1|]. split; [exact G2|]. rewrite G3, HS. reflexivity.
+  - assert (I : neg_inv (Z.min a b) (Z.max a b) (sys_step s0) true a b).
+    { rewrite HS. constructor; cbn; auto; try lia. }
+    destruct (neg_run _ _ n _ _ _ _ I HC) as (k & f & Hk & Hf & G). cbv zeta in G.
+    destruct G as (G1 & G2 & G3).
+    exists f, (1 + k + 3)%nat. split; [lia|]. split; [exact Hf|].
+    intros fuel Hfu. cbv zeta.
+    replace fuel with (S (k + 3) + (fuel - S (k + 3)))%nat by lia. rewrite run_add.
+    cbn [sys_run]. fold s0. rewrite run_stable by exact G2.
+    split; [exact G1|]. split; [exact G2|]. rewrite G3, HS. reflexivity.
+Qed.
+
+(* closed-form bound: if the larger ideal fee is at most 2^m times the
+   smaller one, 8m ratchet steps suffice (1.091^8 > 2) *)
+Lemma pow_1091_8 m : 2 ^ Z.of_nat m * 1000 ^ Z.of_nat (8 * m) <= 1091 ^ Z.of_nat (8 * m).
+Proof.
+  induction m as [|m IH]; [vm_compute; discriminate|].
+  replace (8 * S m)%nat with (8 + 8 * m)%nat by lia.
+  rewrite Nat2Z.inj_succ, Nat2Z.inj_add, Z.pow_succ_r, !Z.pow_add_r by lia.
+  set (A := 1000 ^ Z.of_nat (8 * m)) in *. set (B := 1091 ^ Z.of_nat (8 * m)) in *.
+  set (P := 2 ^ Z.of_nat m) in *.
+  assert (HP : 0 <= P) by (apply Z.pow_nonneg; lia).
+  assert (HA : 0 <= A) by (apply Z.pow_nonneg; lia).
+  assert (K : 2 * 1000 ^ Z.of_nat 8 <= 1091 ^ Z.of_nat 8) by (vm_compute; discriminate).
+  set (C := 1000 ^ Z.of_nat 8) in *. set (D := 1091 ^ Z.of_nat 8) in *.
+  assert (HC : 0 <= C) by (apply Z.pow_nonneg; lia).
+  replace (2 * P * (C * A)) with ((2 * C) * (P * A)) by ring.
+  apply Z.mul_le_mono_nonneg; try lia.
+Qed.
+
+Lemma close_enough_log2 m lo hi :
+  0 < lo -> hi <= lo * 2 ^ Z.of_nat m -> close_enough (8 * m) lo hi.
+Proof.
+  intros Hlo H. unfold close_enough.
+  pose proof (pow_1091_8 m) as K.
+  set (A := 1000 ^ Z.of_nat (8 * m)) in *. set (B := 1091 ^ Z.of_nat (8 * m)) in *.
+  set (P := 2 ^ Z.of_nat m) in *.
+  assert (HA : 0 <= A) by (apply Z.pow_nonneg; lia).
+  assert (S1 : hi * A <= lo * P * A) by (apply Z.mul_le_mono_nonneg_r; lia).
+  assert (S2 : lo * (P * A) <= lo * B) by (apply Z.mul_le_mono_nonneg_l; lia).
+  assert (HB : 0 <= lo * B) by lia.
+  lia.
+Qed.
+
+(* taproot channels: the non-opener accepts the opener's first offer *)
+Lemma taproot_terminates a b cap_o cap_r aff_o aff_r :
+  a <= aff_o -> a <= aff_r ->
+  forall fuel, (3 <= fuel)%nat ->
+    let s := sys_run fuel (sys_start true a cap_o aff_o b cap_r aff_r) in
+    agreed_on s a /\ sys_msg s = None /\ sys_rounds s = 3%nat.
+Proof.
+  intros Ha Hb fuel Hf. cbv zeta.
+  replace fuel with (3 + (fuel - 3))%nat by lia. rewrite run_add.
+  assert (E1 : (a <=? aff_o) = true) by lia.
+  assert (E2 : (a <=? aff_r) = true) by lia.
+  assert (E3 : (a =? a) = true) by lia.
+  assert (HS : sys_run 3 (sys_start true a cap_o aff_o b cap_r aff_r) =
+               mkSys (mkCloser NFinished true true a cap_o a [a] aff_o (Some a))
+                     (mkCloser NFinished false true b cap_r a [a] aff_r (Some a))
+                     None None 3 [a; a; a]).
+  { unfold sys_start, new_closer, begin_negotiation, set_state, propose. cbn.
+    rewrite E1. cbn.
+    unfold sys_step, receive_closing_signed, propose, finalize, set_state; cbn.
+    rewrite E2. cbn. rewrite E3. cbn. reflexivity. }
+  rewrite HS. rewrite run_stable by reflexivity.
+  unfold agreed_on. cbn. repeat split; auto.
+Qed.
+
+(* below 10 sat ratchetFee does not move: two honest closers with ideal fees
+   1 and 5 exchange the same two offers forever *)
+Lemma ratchet_identity_below_10 x up : 0 <= x < 10 -> ratchet_fee x up = x.
+Proof.
+  intros H. assert (C : x = 0 \/ x = 1 \/ x = 2 \/ x = 3 \/ x = 4 \/ x = 5 \/ x = 6 \/
+                        x = 7 \/ x = 8 \/ x = 9) by lia.
+  destruct up; repeat (destruct C as [->|C]; [reflexivity|]); subst; reflexivity.
+Qed.
+
+Definition stuck_start : system := sys_start false 1 1000 1000 5 1000 1000.
+
+Definition core (s : system) := (sys_open s, sys_resp s, sys_msg s, sys_err s).
+
+Lemma step_core s s' : core s = core s' -> core (sys_step s) = core (sys_step s').
+Proof.
+  destruct s as [o r m e n tr], s' as [o' r' m' e' n' tr']. unfold core. cbn.
+  intros H. inversion H; subst.
+  unfold sys_step. cbn.
+  destruct e'; [reflexivity|].
+  destruct m' as [[t f]|]; [|reflexivity].
+  destruct (receive_closing_signed _ _) as [er|[c1 reply]]; reflexivity.
+Qed.
+
+Lemma run_S k s : sys_run (S k) s = sys_step (sys_run k s).
+Proof. replace (S k) with (k + 1)%nat by lia. rewrite run_add. reflexivity. Qed.
+
+Definition stuck_cores :=
+  [core stuck_start; core (sys_run 1 stuck_start); core (sys_run 2 stuck_start);
+   core (sys_run 3 stuck_start)].
+
+Lemma stuck_invariant k : In (core (sys_run k stuck_start)) stuck_cores.
+Proof.
+  induction k as [|k IH]; [left; reflexivity|].
+  rewrite run_S.
+  destruct IH as [E|[E|[E|[E|[]]]]]; symmetry in E; rewrite (step_core _ _ E).
+  - right; left. reflexivity.
+  - right; right; left. reflexivity.
+  - right; right; right; left. reflexivity.
+  - (* the fourth state steps back to the second: a cycle of length 2 *)
+    right; right; left. vm_compute. reflexivity.
+Qed.
+
+Lemma stuck_forever fuel :
+  let s := sys_run fuel stuck_start in
+  agreedb s = None /\ sys_err s = None /\ sys_msg s <> None.
+Proof.
+  cbv zeta. pose proof (stuck_invariant fuel) as H.
+  set (s := sys_run fuel stuck_start) in *.
+  assert (G : forall c, In c stuck_cores ->
+              forall s, core s = c ->
+              agreedb s = None /\ sys_err s = None /\ sys_msg s <> None).
+  { intros c Hc [o r m e n tr] Hs. unfold core in Hs; cbn in Hs.
+    destruct Hc as [E|[E|[E|[E|[]]]]]; rewrite <- E in Hs; vm_compute in Hs;
+      inversion Hs; subst; vm_compute; repeat split; try reflexivity; discriminate. }
+  exact (G _ H s eq_refl).
+Qed.
